@@ -465,6 +465,15 @@ VARIANTS = [
          old="numerator / denominator + usize::from(numerator % denominator != 0)", new="numerator / denominator + 1"),
     dict(property="C08", name="septic-reads-sample-8", file=FAST, expect="of its window",
          old="    let h = yvals[7];", new="    let h = yvals[8];"),
+    # ---------------- found by the automatic operator / identifier mutation campaigns (passed every check before)
+    dict(property="C13", name="validate-measures-outer-slice", file=LIB, expect="InsufficientInputBufferSize",
+         old="for (chan, wave_in) in wave_in.iter().enumerate().filter(|(chan, _)| mask[*chan]) {", new="for (chan, wave_out) in wave_in.iter().enumerate().filter(|(chan, _)| mask[*chan]) {"),
+    dict(property="C07", name="inout-output-slice-wrong-size", file=SYN, expect="unit-slices",
+         old="&mut wave_out[channel].as_mut()[..self.chunk_size_out],", new="&mut wave_out[channel].as_mut()[..self.chunk_size_in],"),
+    dict(property="C01", name="nearest-index-base-ceil", file=INTERP, count=2, expect="R-C01-nodes/get_nearest_times",
+         old="    let start = t.floor() as isize;", new="    let start = t.ceil() as isize;"),
+    dict(property="C01", name="nearest-time-frac-ceil", file=INTERP, expect="R-C01-nodes/get_nearest_time",
+         old="let mut subindex = ((t - t.floor()) * (factor as f64)).round() as isize;", new="let mut subindex = ((t - t.ceil()) * (factor as f64)).round() as isize;"),
 ]
 
 
